@@ -556,6 +556,35 @@ func runC14(c *Ctx) {
 	c.Rule("R14.6", "E3", "query converters build each term from that term only (shared with C11 R11.10): the selector that arrives at the wrapped state is the selector the caller wrote", 2)
 	perTermRules(c, "R14.6")
 
+	// ---------- R14.9 List and Watch option constructors agree on what a query is
+	c.Rule("R14.9", "E5", "pkg/state label-query option constructors (WithLabelQuery for List, WatchWithLabelQuery for kind watches): the returned option appends its query to LabelQueries on every path — a query without terms matches everything and queries are OR-ed, so dropping it in one sibling only makes the watch of [{}, {app==web}] narrower than the List of the same selectors", 2)
+
+	{
+		n := 0
+
+		for _, f := range p.PkgFuncs(pkgState) {
+			if f.Parent() != nil || !strings.Contains(f.Name(), "LabelQuery") || len(f.AnonFuncs) == 0 || f.Signature.Recv() != nil {
+				continue
+			}
+
+			for _, cl := range f.AnonFuncs {
+				st := StoreToField("", "LabelQueries")
+				if len(Find(cl, st)) == 0 {
+					continue
+				}
+
+				n++
+
+				bad, w := p.Reach(Entry(cl), IsReturn, CutSpec{Nodes: st})
+				c.Check(!bad, "R14.9", FuncName(f)+" :: the option always appends its query", fpos(f), "every path through the option stores LabelQueries", "the option can return without adding its query: "+strings.Join(w, " "))
+			}
+		}
+
+		if n < 2 {
+			c.Unknown("R14.9", pkgState+" :: label-query option constructors", token.NoPos, fmt.Sprintf("anchor-unresolved: expected >= 2 constructors whose option stores LabelQueries, found %d", n))
+		}
+	}
+
 	// ---------- R14.7 the ID selector has one interpreter too
 	c.Rule("R14.7", "E5", "IDQuery.Regexp is read only in pkg/resource (Matches) and by the client translator (String): nobody derives a second, cheaper selector from the expression; the cached list filters a copy of the whole resource slice", 2)
 
